@@ -1,4 +1,5 @@
 pub mod diffref;
+pub mod api;
 pub mod c01;
 
 use crate::ast::Node;
@@ -15,6 +16,12 @@ pub fn run(ctx: &RunCtx) -> Outcome {
         "C01" => c01::run(ctx, false),
         "C02" => c01::run(ctx, true),
         "C15" => c01::run_cond(ctx),
+        "C05" => api::run_c05(ctx),
+        "C08" => api::run_c08(ctx),
+        "C09" => api::run_c09(ctx),
+        "C10" => api::run_c10(ctx),
+        "C11" => api::run_c11(ctx),
+        "C16" => api::run_c16(ctx),
         _ => Outcome { infra_error: Some(format!("no check for {}", ctx.prop)), ..Outcome::default() },
     }
 }
@@ -26,6 +33,15 @@ pub fn replay(ctx: &RunCtx, case: &Value) -> Result<Option<Fail>, String> {
         "C15" => {
             let omit = case.get("extra").and_then(|e| e.get("omit_empty_no")).and_then(|b| b.as_bool()).unwrap_or(false);
             replay_pat(ctx, &diffref::DiffRef { omit_empty_no: omit, ..c01::prop_cond() }, case)
+        }
+        "C05" => replay_pat(ctx, &api::Safety, case),
+        "C08" => replay_pat(ctx, &api::IterModel, case),
+        "C09" => replay_pat(ctx, &api::Coherence, case),
+        "C10" => replay_pat(ctx, &api::SplitModel, case),
+        "C11" => replay_pat(ctx, &api::ReplaceModel, case),
+        "C16" => {
+            let force_vm = case.get("extra").and_then(|e| e.get("force_vm")).and_then(|b| b.as_bool()).unwrap_or(false);
+            replay_pat(ctx, &api::Meta { force_vm }, case)
         }
         _ => Err(format!("no replay for {}", ctx.prop)),
     }
